@@ -52,6 +52,14 @@ func TestReplayDetector(t *testing.T) {
 		mc.TempThreshMin, mc.TempThreshMax = 0, 0
 		if mc.DynamicThreshold && rng.Intn(2) == 0 {
 			mc.TempThreshMin, mc.TempThreshMax = uint16(9+rng.Intn(3)), uint16(12+rng.Intn(3))
+			switch rng.Intn(6) {
+			case 0:
+				mc.TempThreshMax = mc.TempThreshMin // pinned threshold
+			case 1:
+				mc.TempThreshMin = 0
+			case 2:
+				mc.TempThreshMax = 0
+			}
 		}
 		preview := rng.Intn(3)
 		d := NewMotionDetector(mc, preview, cam)
